@@ -230,7 +230,8 @@ func (r *Roles) Classifier(m Mode) func(ci *eng.CallInfo) *eng.Disposition {
 			case "(*sync.WaitGroup).Wait":
 				return &eng.Disposition{Act: eng.ActEvent, Class: "wg.Wait"}
 			case "context.Cause":
-				return &eng.Disposition{Act: eng.ActEvent, Class: "ctx.Err"}
+				// not ctx.Err(): with WithCancelCause the cause does not match the context's error
+				return &eng.Disposition{Act: eng.ActEvent, Class: "ctx.Cause"}
 			}
 			return nil
 		}
